@@ -54,6 +54,25 @@ def finding_class(units, ans):
                 if seen & ext:
                     return "dup-external-symbol"
                 seen |= ext
+            # same-named structures / words in several modules (they are private to their modules)?
+            decls = [set(re.findall(r"^(?:pub\s+)?(?:struct|word\d+)\s+([A-Za-z_][A-Za-z0-9_]*)", src, re.M)) for _, src in units]
+            shared = set()
+            for i in range(len(units)):
+                for j in range(i + 1, len(units)):
+                    shared |= decls[i] & decls[j]
+            if shared:
+                renamed = []
+                first_seen = set()
+                for idx, (n2, s2) in enumerate(units):
+                    for nm in shared:
+                        if nm in decls[idx]:
+                            if nm in first_seen:
+                                s2 = re.sub(r"\b%s\b" % re.escape(nm), "%s_renamed%d_" % (nm, idx), s2)
+                            first_seen.add(nm)
+                    renamed.append((n2, s2))
+                rq2 = "alpha\tir\t" + "\t".join(x for n2, s2 in renamed for x in (n2, esc(s2)))
+                if not run_harness_serial([rq2])[0].startswith("crash"):
+                    return "crash:same-named-structure-in-two-modules"
         # what LLVM said before it aborted the process
         rq = "alpha\tir\t" + "\t".join(x for nm, s in units for x in (nm, esc(s)))
         p = subprocess.run([HARNESS_BIN], input=(rq + "\n").encode(), stdout=subprocess.PIPE, stderr=subprocess.PIPE,
@@ -131,6 +150,17 @@ def main():
             if r.chance(1, 2):
                 mods[0] = (mods[0][0], 'import "m1.pn";\n' + mods[0][1])
             inputs.append(mods)
+    for i in range(400 if thorough else 40):
+        inputs.append(faultgen.clash_modules(rng.fork("clash%d" % i)))
+    # every small statement structure (blocks, ifs, else branches, loops, gotos, labels in every arrangement: the
+    # skeletons of C06 and C05), valid or not, through the whole pipeline including code generation
+    import c06
+    import c05
+    structured = c06.enum_trees(5 if thorough else 4)
+    for i in range(5000 if thorough else 600):
+        structured.append(c06.random_list(rng.fork("s%d" % i), 1 + rng.below(8), 4))
+    for body in structured:
+        inputs.append([("f.pn", c06.requests(body)[2])])
     # probes: the minimal inputs of the known findings, so that each is exercised on every run
     two_mains = "fn main() -> i32\n{\n\treturn: 1\n}\n"
     for name, src in corpus:
@@ -148,7 +178,13 @@ def main():
         c = classify(a)
         dist[c] += 1
         if c not in ("ok", "err"):
-            sig = (re.match(r"panic at=\S+", a).group(0) if a.startswith("panic at=") else c + ":" + re.sub(r"[0-9]+", "N", a[:80]))
+            if a.startswith("panic at="):
+                sig = re.match(r"panic at=\S+", a).group(0)
+            elif c == "crash":
+                # a dead worker says nothing about the cause: classify every case (the classes differ in their inputs)
+                sig = "crash:" + str(finding_class(u, a))
+            else:
+                sig = c + ":" + re.sub(r"[0-9]+", "N", a[:80])
             bad.setdefault(sig, []).append((u, rq, a))
     for sig, cases in bad.items():
         u, rq, a = min(cases, key=lambda x: sum(len(s) for _, s in x[0]))
